@@ -52,7 +52,7 @@ theorem entries_shifted (c p : State) (fa ci : Nat) (free : Option (List Addr)) 
     (hnl : (p.codes[ci]!).numParams ≤ (p.codes[ci]!).numLocals) :
     ∃ c' p', exec (prologue p.globals args) c = (.ok (), c') ∧
       exec (callCompiled fa args.length 0) p = (.ok (.ok ()), p') ∧
-      ShB (p.sp - args.length).toNat p.frameIndex.toNat 0 c' p' ∧ c'.sp = (p.codes[ci]!).numLocals := by
+      ShB p' (p.sp - args.length).toNat p.frameIndex.toNat 0 c' p' ∧ c'.sp = (p.codes[ci]!).numLocals := by
   have hcell : exec (fnCell fa) p = (.ok (p.codes[ci]!, free), p) := EvalLocals.exec_fnCell p fa ci free hfn
   obtain ⟨stp, hp, hpsz, hpslots, hprest⟩ :=
     callCompiled_slots fa args p _ free hcell hargs hacc hself hfi hbp hsp hroom hnl hshp.stack
@@ -130,6 +130,8 @@ theorem entries_shifted (c p : State) (fa ci : Nat) (free : Option (List Addr)) 
         have : (0 : Int) ≤ p.sp - args.length := hbp
         simp only [stackSize] at hroom ⊢
         omega
+      lowF := fun _ _ => rfl
+      lowS := fun _ _ => rfl
       stack := by
         intro i hi
         show stc[i]! = stp[(p.sp - args.length).toNat + i]!
